@@ -72,9 +72,19 @@ func vpH_C08_dict() {
 	}
 	seg := vpBuild(docs, 1025)
 	held := docs
-	switch vpChoice("variant", 3) {
+	variant := vpChoice("variant", 5)
+	switch variant {
 	case 0:
 		vpReach("C08 built")
+	case 3, 4:
+		// the documents split over two segments that are merged: terms present in
+		// one input only (among them the empty term), in the first or in the second
+		cut := variant - 2
+		s1, s2 := vpBuild(docs[:cut], 1025), vpBuild(docs[cut:], 1025)
+		mb, _ := vpMergeBytes([]*Segment{s1, s2}, []*roaring.Bitmap{nil, nil}, 1025)
+		seg = vpLoad(mb)
+		vpNote("feat:merged")
+		vpReach("C08 merged from two segments")
 	case 1:
 		mb, _ := vpMergeBytes([]*Segment{seg}, []*roaring.Bitmap{nil}, 1025)
 		seg = vpLoad(mb)
@@ -200,7 +210,15 @@ func vpH_C08_symkeys() {
 	}
 	seg := vpBuild(docs, 1025)
 	held := docs
-	switch vpChoice("variant", 3) {
+	variant := vpChoice("variant", 5)
+	switch variant {
+	case 3, 4:
+		// merged from two segments: terms (among them the empty term) present in one input only
+		cut := variant - 2
+		s1, s2 := vpBuild(docs[:cut], 1025), vpBuild(docs[cut:], 1025)
+		mb, _ := vpMergeBytes([]*Segment{s1, s2}, []*roaring.Bitmap{nil, nil}, 1025)
+		seg = vpLoad(mb)
+		vpNote("feat:merged")
 	case 1:
 		mb, _ := vpMergeBytes([]*Segment{seg}, []*roaring.Bitmap{nil}, 1025)
 		seg = vpLoad(mb)
